@@ -22,6 +22,7 @@ func main() {
 	}
 	if only != "net" {
 		genSendOne(r)
+		genWindowWrap(r)
 	}
 	if only != "white" && only != "sendone" {
 		genNet(r)
